@@ -69,16 +69,16 @@ def sep_statement(ra1, dec1, ra2, dec2):
         return "finite"
     if not ((s >= 0) & (s <= 180)).all() or not ((g >= 0) & (g <= 180 + 1e-12)).all():
         return "range"
-    if np.abs(s - true).max() > 1e-11:
+    if not (np.abs(s - true).max() <= 1e-11):
         return "sphdist accuracy %g at %d" % (np.abs(s - true).max(), int(np.abs(s - true).argmax()))
-    if np.abs(g - true).max() > 2e-6:
+    if not (np.abs(g - true).max() <= 2e-6):
         return "gcirc accuracy %g" % np.abs(g - true).max()
     if not np.array_equal(co.sphdist(ra2, dec2, ra1, dec1), s) and np.abs(co.sphdist(ra2, dec2, ra1, dec1) - s).max() > 1e-13:
         return "symmetric"
     same = (ra1 == ra2) & (dec1 == dec2)
     if not (s[same] == 0).all() or not (g[same] == 0).all():
         return "zero for identical inputs"
-    if np.abs(co.sphdist(ra1 + 360.0, dec1, ra2, dec2) - s).max() > 1e-11 or np.abs(co.sphdist(ra1, dec1, ra2 - 360.0, dec2) - s).max() > 1e-11:
+    if not (np.abs(co.sphdist(ra1 + 360.0, dec1, ra2, dec2) - s).max() <= 1e-11 and np.abs(co.sphdist(ra1, dec1, ra2 - 360.0, dec2) - s).max() <= 1e-11):
         return "+360 invariance"
     # scalar, length-1 and length-3 calls agree with the long-array call
     for k in (0, len(s) // 2, len(s) - 1):
@@ -93,14 +93,14 @@ def sep_statement(ra1, dec1, ra2, dec2):
     if not np.array_equal(a3, s[far]):
         return "length-3 (far pairs) vs array"
     r = co.sphdist(np.deg2rad(ra1), np.deg2rad(dec1), np.deg2rad(ra2), np.deg2rad(dec2), units=["rad", "rad"])
-    if np.abs(np.rad2deg(r) - true).max() > 1e-11:
+    if not (np.abs(np.rad2deg(r) - true).max() <= 1e-11):
         return "radian units"
     # longitudes are angles: negative radians and a full turn more are the same directions
     r = co.sphdist(np.deg2rad(ra1) - 2 * np.pi, np.deg2rad(dec1), np.deg2rad(ra2) + 2 * np.pi, np.deg2rad(dec2), units=["rad", "rad"])
-    if np.abs(np.rad2deg(r) - true).max() > 1e-10:
+    if not (np.abs(np.rad2deg(r) - true).max() <= 1e-10):
         return "radian units, longitudes shifted by a full turn"
     d2 = co.sphdist(np.deg2rad(ra1), np.deg2rad(dec1), np.deg2rad(ra2), np.deg2rad(dec2), units=["rad", "deg"])
-    if np.abs(d2 - true).max() > 1e-11:
+    if not (np.abs(d2 - true).max() <= 1e-11):
         return "mixed units"
     # positions held in narrower floats are exact numbers too: the separation of the stored values, to the same tolerance
     for narrow in ("f4", "f2"):
@@ -224,7 +224,7 @@ def conv_statement(lon, lat, poles_only=False):
     if true_sep(ra, dec, lon, lat)[aways].max(initial=0.0) > 1e-9:
         return "eq2sdss/sdss2eq round trip %g" % true_sep(ra, dec, lon, lat)[aways].max()
     x, y, z = co.eq2xyz(lon, lat)
-    if np.abs(x * x + y * y + z * z - 1).max() > 1e-14:
+    if not (np.abs(x * x + y * y + z * z - 1).max() <= 1e-14):
         return "unit length"
     xs, ys, zs = co.eq2xyz(lon, lat, stomp=True)
     ras, decs = co.xyz2eq(xs, ys, zs, stomp=True)
@@ -240,7 +240,7 @@ def conv_statement(lon, lat, poles_only=False):
     # positions held in single precision are positions too: the values they hold go round to the same 1e-9 degree
     lon4, lat4 = lon.astype("f4"), lat.astype("f4")
     x4, y4, z4 = co.eq2xyz(lon4, lat4)
-    if np.abs(np.asarray(x4, dtype="f8") ** 2 + np.asarray(y4, dtype="f8") ** 2 + np.asarray(z4, dtype="f8") ** 2 - 1).max() > 1e-14:
+    if not (np.abs(np.asarray(x4, dtype="f8") ** 2 + np.asarray(y4, dtype="f8") ** 2 + np.asarray(z4, dtype="f8") ** 2 - 1).max() <= 1e-14):
         return "unit length for float32 input"
     ra, dec = co.xyz2eq(x4, y4, z4)
     a4 = np.abs(lat4.astype("f8")) < 89.9
@@ -333,7 +333,7 @@ def rotate_shift_statement(lon, lat, angles, shifts):
         lo, la = co.rotate(phi, theta, psi, lon, lat)
         if not (np.isfinite(lo).all() and np.isfinite(la).all()) or not ((lo >= 0) & (lo <= 360)).all() or not ((la >= -90) & (la <= 90)).all():
             return "rotate range"
-        if np.abs(true_sep(lo, la, np.roll(lo, 1), np.roll(la, 1)) - true_sep(lon, lat, np.roll(lon, 1), np.roll(lat, 1))).max() > 1e-9:
+        if not (np.abs(true_sep(lo, la, np.roll(lo, 1), np.roll(la, 1)) - true_sep(lon, lat, np.roll(lon, 1), np.roll(lat, 1))).max() <= 1e-9):
             return "rotate not an isometry"
         # it is a proper rotation: the images of the three axes form an orthogonal matrix of determinant +1 that maps every
         # point to its image (so it is undone by the transposed matrix)
@@ -343,7 +343,7 @@ def rotate_shift_statement(lon, lat, angles, shifts):
             return "rotate is not a proper rotation"
         img = M @ np.asarray(_unit(lon, lat), dtype="f8")
         got = np.asarray(_unit(lo, la), dtype="f8")
-        if np.abs(img - got).max() > 1e-11:
+        if not (np.abs(img - got).max() <= 1e-11):
             return "rotate does not act as one rotation matrix"
         # undone by its inverse: for this function's angle convention the inverse rotation is rotate(psi, -theta, phi)
         bl, bb = co.rotate(psi, -theta, phi, lo, la)
@@ -360,7 +360,7 @@ def rotate_shift_statement(lon, lat, angles, shifts):
         if not ((r >= 0) & (r < 360)).all():
             return "shiftlon range shift=%r" % sh
         k = (r - (base - sh)) / 360.0
-        if np.abs(k - np.round(k)).max() > 1e-9:
+        if not (np.abs(k - np.round(k)).max() <= 1e-9):
             return "shiftlon congruence"
         # the shift as second positional argument (the documented order lon, shift, wrap) and through shiftra
         if not np.array_equal(co.shiftlon(base, sh), r) or not np.array_equal(co.shiftra(base, sh), r) \
@@ -633,10 +633,15 @@ def _dom_chol(tier, seed):
                 yield dict(call=(lambda: None), args=[], ghost=dict(cov=cov, mean=mean, n=n, seed=seed + d), key="d=%d n=%s" % (d, n))
 
 
-def indices_statement(imax, nrand, unique, seed):
+def indices_statement(imax, nrand, unique, seed, kind="legacy"):
     import numpy as np
     import esutil.random as er
-    ind = np.atleast_1d(er.random_indices(imax, nrand, unique=unique, rng=np.random.RandomState(seed)))
+    if kind == "legacy":
+        ind = np.atleast_1d(er.random_indices(imax, nrand, unique=unique, rng=np.random.RandomState(seed)))
+    elif kind == "new":
+        ind = np.atleast_1d(er.random_indices(imax, nrand, unique=unique, rng=np.random.default_rng(seed)))
+    else:
+        ind = np.atleast_1d(er.random_indices(imax, nrand, unique=unique, seed=seed))
     if ind.size != nrand or not ((ind >= 0) & (ind < imax)).all():
         return "count / range"
     if unique and len(set(ind.tolist())) != nrand:
@@ -646,7 +651,7 @@ def indices_statement(imax, nrand, unique, seed):
 
 contract("esutil.random.random_indices#statement", params={}, assumed=True, runtime_name="esutil.random.random_indices",
          why_assumed="bounded run-time stand-in (range and uniqueness are numpy.random choice's contract)",
-         rt_ensures={"range-and-uniqueness": "indices_statement(imax, nrand, unique, seed) is True"},
+         rt_ensures={"range-and-uniqueness": "indices_statement(imax, nrand, unique, seed, kind) is True"},
          props=["C19"])
 
 
@@ -657,4 +662,12 @@ def _dom_indices(tier, seed):
             for unique in (False, True):
                 if unique and nrand > imax:
                     continue
-                yield dict(call=(lambda: None), args=[], ghost=dict(imax=imax, nrand=nrand, unique=unique, seed=seed), key="%d %d %s" % (imax, nrand, unique))
+                yield dict(call=(lambda: None), args=[], ghost=dict(imax=imax, nrand=nrand, unique=unique, seed=seed, kind="legacy"), key="%d %d %s" % (imax, nrand, unique))
+    # sparse requests from large ranges, sized so that independent draws would repeat an index in most calls (nrand**2 >> imax)
+    for imax, nrand, kinds in ((3000000, 2500, ("legacy", "new", "seed")), (3000000, 6000, ("legacy", "new")), (10 ** 7, 8000, ("new", "seed")),
+                               (10 ** 8, 30000, ("new",)), (2 ** 40, 4000000, ("new",)),
+                               (50000, 49000, ("legacy", "new")), (1000, 1000, ("legacy", "new", "seed"))):
+        for kind in kinds:
+            for rep in range(2 if tier == "quick" else 6):
+                yield dict(call=(lambda: None), args=[], ghost=dict(imax=imax, nrand=nrand, unique=True, seed=seed * 7 + rep, kind=kind),
+                           key="%d %d unique %s #%d" % (imax, nrand, kind, rep))
